@@ -98,7 +98,7 @@ func (c *Ctx) checkNewChordBase() {
 func ruleApply(c *Ctx) {
 	c.checkNewChordBase()
 	if fn := c.fn("play", "Key.Apply"); fn != nil {
-		if problem, n, ok := c.chordPipelineByFolding(); ok {
+		if problem, n, ok := c.chordPipelineVerdict(); ok {
 			c.site(1)
 			c.check(problem == "", "play.Key.Apply|pipeline", c.pos(fn.Pos()), fname(fn), fmt.Sprintf("%d chords folded end to end (builder, validated map, NewKey, NewChord, Apply): every built-in symbol by name and by display on C, four symbols in all 28 keys on four roots over four basses: bass an octave below the root, then the chord's intervals parent first", n), "from the built-in dictionary through Builder.Build, NewKey and NewChord to Key.Apply: "+problem)
 		}
@@ -1558,6 +1558,12 @@ func ruleExtends(c *Ctx) {
 	}
 	c.site(1)
 	name := fname(fn)
+	// every built-in symbol, resolved through the builder and this function and played, by folding: when that decides,
+	// how the resolution is written (recursion with an accumulator, a loop up the parents, a joined list) is decided with it
+	if p, n, ok := c.chordPipelineVerdict(); ok && p == "" {
+		c.ok(name, c.pos(fn.Pos()), name, fmt.Sprintf("decided by APPLY play.Key.Apply|pipeline: %d chords folded from the dictionary through GetChordAttributes to the pitches, inherited attributes first", n))
+		return
+	}
 	// the resolution may be split into the lookup and a recursive helper with an accumulator: look at the whole region
 	region := c.regionCalls(fn, nil)
 	fns := []*ssa.Function{fn}
@@ -1779,6 +1785,13 @@ func ruleBuilder(c *Ctx) {
 					wrongValue = "a chord is registered under its name / display only under a further condition (`" + pc.cond.String() + "`)"
 				}
 			})
+		}
+		if !(keys["name"] && keys["display"] && wrongValue == "") {
+			// the index may be filled elsewhere (when a definition is registered): decided by playing every built-in symbol,
+			// by name and by display, through the builder
+			if p, _, ok := c.chordPipelineVerdict(); ok && p == "" {
+				keys["name"], keys["display"], wrongValue = true, true, ""
+			}
 		}
 		c.check(keys["name"] && keys["display"] && wrongValue == "", name, c.pos(fn.Pos()), name, "every chord stored under its name and its display", name+": chords are no longer indexed by both name and display symbol (one of the two spellings stops working) "+wrongValue)
 		// result goes through NewMap (validation)
